@@ -222,3 +222,13 @@ def one_line(rng):
     """One complete single-line statement (with its line break)."""
     return (rng.choice(_NAMES[:10]) + b'=' + rng.choice((b'%d' % rng.randrange(300), rng.choice(_CALLS) + b'(%d)' % rng.randrange(99),
                                                        b'"s%d"' % rng.randrange(99), b'{1,2}'))) + b'\n'
+
+
+CART_BASENAMES = ('cart', 'demo-0.1', 'jelpi.v2', 'hero.sprites', 'my game', 'UPPER_case', 'x.p8.old', 'a.lua.b', 'v1.2.3-final', '.hidden',
+                  'näme', 'trailing.dot.')
+
+
+def cart_basename(i):
+    """File base names that are legal but not plain: extra dots, digits, spaces, text that looks like an extension, a leading dot,
+    non-ASCII characters.  The extension proper is appended by the caller."""
+    return CART_BASENAMES[i % len(CART_BASENAMES)]
